@@ -19,12 +19,14 @@ open CelerVerif
     `cvttsd2si`: truncation toward zero, out of range → −2^63 -/
 noncomputable instance : NumX ℝ where
   cbrt := fun x => x ^ ((1 : ℝ) / 3)
+  pow := fun x y => x ^ y
   truncI64 := fun x =>
     if x < -(2 : ℝ) ^ 63 ∨ (2 : ℝ) ^ 63 ≤ x then -(2 ^ 63 : Int)
     else if 0 ≤ x then ⌊x⌋ else ⌈x⌉
 
 namespace R
 theorem cbrt_real (x : ℝ) : NumX.cbrt x = x ^ ((1 : ℝ) / 3) := rfl
+theorem pow_real (x y : ℝ) : NumX.pow x y = x ^ y := rfl
 theorem trunc_real (x : ℝ) : NumX.truncI64 x =
     if x < -(2 : ℝ) ^ 63 ∨ (2 : ℝ) ^ 63 ≤ x then -(2 ^ 63 : Int)
     else if 0 ≤ x then ⌊x⌋ else ⌈x⌉ := rfl
